@@ -198,7 +198,8 @@ def case_stacks(cs):
             k = kinds[nm]
             if nm in spec["weights"]:
                 row = list(run.frames[0].index).index(now)
-                T = w5.weight_at(spec, nm, row) * base
+                wt = w5.weight_at(spec, nm, row)
+                T = wt * base if wt == wt else 0.0       # a name dropped from the dated targets is closed
                 common.bump(cnt, "target_evals")
                 if k in ("fi", "cp"):
                     tol = 1e-9 * (1 + abs(T)) + (1.0 if spec["integer"] else 0.0)
